@@ -7,6 +7,7 @@
 //   r <hex input>       scan_raw('"') on the input stream       -> str=<hex> rest=<hex> closed=<0|1>
 //   l <hex line>        show_line on a file holding the line    -> <hex of the echoed line>
 //   q <hex text>        CPPManifest::stringify(text)            -> <hex of the string literal>
+//   s <hex define> <hex arg>,<hex arg>,...|-   CPPManifest(define).expand(args) in a parser without other macros -> <hex of the text>
 // A std::out_of_range escaping from the code under test prints THROW.
 #include <iostream>
 #include <sstream>
@@ -90,6 +91,28 @@ int main(int argc, char **argv) {
 
       } else if (mode == 'q') {
         cout << hex(CPPManifest::stringify(unhex(rest))) << "\n";
+
+      } else if (mode == 's') {
+        size_t sp = rest.find(' ');
+        string def = unhex(rest.substr(0, sp));
+        string al = rest.substr(sp + 1);
+        vector_string args;
+        if (al != "-") {
+          size_t from = 0;
+          while (true) {
+            size_t comma = al.find(',', from);
+            args.push_back(unhex(al.substr(from, comma == string::npos ? string::npos : comma - from)));
+            if (comma == string::npos) {
+              break;
+            }
+            from = comma + 1;
+          }
+        }
+        CPPParser parser;
+        cppyyltype loc;
+        loc.first_line = loc.first_column = loc.last_line = loc.last_column = 0;
+        CPPManifest m(parser, def, loc);
+        cout << hex(m.expand(args)) << "\n";
 
       } else if (mode == 'x') {
         size_t sp = rest.find(' ');
